@@ -216,7 +216,7 @@ func (a *StructAnalyzer) parseStructFields(structType *ast.StructType) ([]parsed
 				Name:     name.Name,
 				Type:     a.getReflectType(field.Type),
 				TypeName: getTypeNameFromAST(field.Type),
-				JSONName: a.extractJSONName(field),
+				JSONName: a.extractJSONName(field, name.Name),
 			}
 
 			hasGozodTag := false
@@ -391,31 +391,24 @@ func NeedsGeneration(info *GenerationInfo) bool {
 	return false
 }
 
-// extractJSONName extracts the JSON field name from a struct tag.
-func (a *StructAnalyzer) extractJSONName(field *ast.Field) string {
+// extractJSONName extracts the JSON field name from a struct tag; fieldName is
+// the name it falls back to. A field declaration may carry several names
+// (`F, G string`): each of them is a field of its own.
+func (a *StructAnalyzer) extractJSONName(field *ast.Field, fieldName string) string {
 	if field.Tag == nil {
-		if len(field.Names) > 0 {
-			return field.Names[0].Name
-		}
-		return ""
+		return fieldName
 	}
 
 	tagValue := strings.Trim(field.Tag.Value, "`")
 	jsonTag := extractTagValue(tagValue, "json")
 	if jsonTag == "" {
-		if len(field.Names) > 0 {
-			return field.Names[0].Name
-		}
-		return ""
+		return fieldName
 	}
 
 	name, _, _ := strings.Cut(jsonTag, ",")
 	name = strings.TrimSpace(name)
 	if name == "" || name == "-" {
-		if len(field.Names) > 0 {
-			return field.Names[0].Name
-		}
-		return ""
+		return fieldName
 	}
 	return name
 }
